@@ -43,6 +43,11 @@ InjSeqs(n) == UNION {{q \in [1..k -> 1..n] : Injective(q)} : k \in 0..n}
 RegsAll == InjSeqs(NS)
 RegsFull == {q \in InjSeqs(NS) : Len(q) >= NS - 1}
 StaAll == [Cars -> Names]
+\* a few initial situations for the quick tier / the deeper exhaustive generation (2 stations, 2 EVs)
+RegsFew == {<<2, 1>>, <<1>>}
+StaFew == {<<1, 2>>, <<1, 1>>, <<2, 3>>}
+RegsOne == {<<2, 1>>}
+StaOne == {<<1, 2>>}
 
 \* salts per call form: one each (model checking, exhaustive generation; steering off) ...
 WtOne == [register |-> {0}, plugin |-> {0}, plugin2 |-> {0}, unplug |-> {0}, unplugdep |-> {0}, getev |-> {0},
